@@ -32,7 +32,10 @@ func (g *Gen) prepareAxioms() {
 }
 
 // Query builds the SMT-LIB text for an obligation.
-func (o *Obligation) Query() string {
+func (o *Obligation) Query() string { return o.QueryFor(o.Goal) }
+
+// QueryFor builds the query with the given goal (a conjunct of o.Goal).
+func (o *Obligation) QueryFor(goal string) string {
 	g := o.gen
 	var sb strings.Builder
 	sb.WriteString(smtPrelude)
@@ -53,7 +56,7 @@ func (o *Obligation) Query() string {
 	}
 	fmt.Fprintf(&body, "(assert %s)\n", o.PC)
 	if !o.MustBeSat {
-		fmt.Fprintf(&body, "(assert (not %s))\n", o.Goal)
+		fmt.Fprintf(&body, "(assert (not %s))\n", goal)
 	}
 	// relevant axioms
 	have := map[string]bool{}
@@ -81,7 +84,6 @@ func (o *Obligation) Query() string {
 					have[s] = true
 				}
 				fmt.Fprintf(&sb, "; axiom %s\n(assert %s)\n", ax.name, ax.text)
-				o.Axioms = append(o.Axioms, ax.name)
 			}
 		}
 	}
